@@ -22,3 +22,45 @@ def check_dead_arms(eng, run, rule: str, module_prefixes: tuple[str, ...], minim
                             "so the error conversion in this arm is lost")
             run.ob(rule, f"{fn.module.name.split('easynetwork.')[1]}:{fn.short}:try@{len(t.handlers)}arms:{ast.unparse(t.handlers[0].type)[:24] if t.handlers[0].type else ''}", not dead)
     run.floor(f"{rule} multi-arm try statements", n, minimum)
+
+
+def check_handler_attrs(eng, run, rule: str, module_prefixes: tuple[str, ...], minimum: int, resolve=None) -> None:
+    """`except (A, B) as exc:` followed by `exc.attr`: the attribute must exist on instances of *every* class the arm catches,
+    otherwise the arm itself raises AttributeError for the other class and the conversion it performs is replaced by a crash."""
+    n = 0
+    for fn in eng.db.all_functions():
+        if isinstance(fn.node, ast.Lambda) or not fn.module.name.startswith(tuple("easynetwork." + p for p in module_prefixes)):
+            continue
+        for t in own_nodes(fn.node):
+            if not isinstance(t, ast.Try):
+                continue
+            for h in t.handlers:
+                if h.name is None or h.type is None:
+                    continue
+                names = eng.lattice.handler_classes(fn, h.type, resolve)
+                uses = sorted({a.attr for a in ast.walk(h) if isinstance(a, ast.Attribute) and isinstance(a.ctx, ast.Load) and isinstance(a.value, ast.Name) and a.value.id == h.name})
+                if not names or not uses:
+                    continue
+                n += 1
+                bad = []
+                for cls in names:
+                    attrs = eng.lattice.instance_attrs(cls)
+                    if attrs is None:
+                        continue
+                    for u in uses:
+                        if u not in attrs:
+                            bad.append((cls, u))
+                for cls, u in bad[:1]:
+                    node = next(a for a in ast.walk(h) if isinstance(a, ast.Attribute) and a.attr == u and isinstance(a.value, ast.Name) and a.value.id == h.name)
+                    run.finding(rule, fn, _stmt_containing(h, node), f"`{h.name}.{u}` is read in `except {ast.unparse(h.type)}` but instances of {cls} have no such attribute: "
+                                f"when a {cls.split('.')[-1]} is caught the arm raises AttributeError instead of converting the error")
+                run.ob(rule, f"{fn.module.name.split('easynetwork.')[1]}:{fn.short}:except {ast.unparse(h.type)[:30]} as {h.name}", not bad, attributes=uses, classes=[c.split(".")[-1] for c in names])
+    run.floor(f"{rule} except arms reading attributes of the caught exception", n, minimum)
+
+
+def _stmt_containing(h: ast.ExceptHandler, node: ast.AST) -> ast.AST:
+    best = h.body[0]
+    for st in ast.walk(h):
+        if isinstance(st, ast.stmt) and not isinstance(st, (ast.If, ast.Try, ast.With)) and any(x is node for x in ast.walk(st)):
+            best = st
+    return best
